@@ -100,7 +100,11 @@ ShowSpan(sp, v) ==
 \*   w.always (24/7), w.written_time (FALSE: time selector omitted = 00:00-24:00),
 \*   w.kindword ("" = omitted), w.comment ("" = none)
 ShowWide(w, v) ==
-  LET y  == Join(MapSeq(w.year, ShowYear), ",")
+  LET \* a single year directly followed by a date is read as the year of that date (grammar.pest: "monthday_selector
+      \* will be favored"): the year *selector* 2024 in front of dates can only be written as the range 2024-2024
+      y  == Join(MapSeq(w.year, ShowYear), ",")
+              \o (IF Len(w.year) = 1 /\ w.monthday # <<>> /\ w.year[1].a = w.year[1].b /\ w.year[1].step = 1
+                  THEN "-" \o ToString(w.year[1].b) ELSE "")
       md == Join(MapSeq(w.monthday, LAMBDA r : ShowMonthday(r, v)), ",")
       wk == IF w.week = <<>> THEN "" ELSE v.wk \o Join(MapSeq(w.week, LAMBDA r : ShowWeek(r, v)), ",")
   IN y \o md \o (IF wk # "" /\ (y # "" \/ md # "") THEN " " ELSE "") \o wk
